@@ -72,6 +72,7 @@ MUTANTS = [
     ("new-process-global-memo", "C10", "globals", "mypy/util.py", "fields_cache: Final[dict[type[object], list[str]]] = {}", "fields_cache: Final[dict[type[object], list[str]]] = {}\nseen_paths: Final[set[str]] = set()\n\n\ndef remember_path(p: str) -> None:\n    seen_paths.add(p)", "violation"),
     ("error-code-sets-hashed-unsorted", "C10", "detopts", "mypy/options.py", "                val = sorted([code.code for code in val])", "                val = [code.code for code in val]", "violation"),
     ("typestate-protocol-deps-not-reset", "C10", "globals", "mypy/typestate.py", "    type_state.reset_all_subtype_caches()\n    type_state.reset_protocol_deps()\n    TypeVarId.next_raw_id = 1", "    type_state.reset_all_subtype_caches()\n    TypeVarId.next_raw_id = 1", "violation"),
+    ("severity-by-substring-anywhere", "C13", "has_severity", "mypy/util.py", "    other_pos = message.find(other_marker)\n    return other_pos < 0 or pos < other_pos", "    return True", "violation"),
     ("enabled-parent-check-dropped", "C13", "is_error_code_enabled", "mypy/errors.py", "elif error_code.sub_code_of is not None and error_code.sub_code_of in current_mod_disabled:\n            return False", "elif error_code.sub_code_of is not None and error_code.sub_code_of in current_mod_enabled:\n            return False", "violation"),
 ]
 
